@@ -41,9 +41,13 @@ class TManual(Manual):
         Manual.__init__(self)
         self.inline_of = inline_of
         self.by_sub = {}
+        self.delay_of = None
 
     def submit(self, fn, *a, **k):
         det.switch("deleg.submit")
+        d = self.delay_of(fn.sub) if self.delay_of else 0
+        if d:
+            det.sleep(d)          # a delegate whose submit() takes time (e.g. a bounded executor waiting for a slot)
         idx = len(self.fs)
         with det.atomic():
             f = Future()
@@ -86,7 +90,8 @@ def gen(rng, kind=None):
              "outcome": rng.choice(["ok", "ok", "err"]),
              "inline": kind == "exec" and rng.random() < 0.1,
              "cbs": rng.choice([0, 0, 1, 2]), "cb_raise": rng.random() < 0.2, "late_cb": rng.random() < 0.4,
-             "pre_done": kind == "ftimeout" and rng.random() < 0.1}
+             "pre_done": kind == "ftimeout" and rng.random() < 0.1,
+             "slow_submit": rng.choice([0, 0, 0, 0, 1, 2]) if kind == "exec" else 0}
         subs.append(s)
     cancels = []
     for i in range(nsub):
@@ -116,6 +121,7 @@ def execute(p, chooser):
             m = None
         else:
             m = TManual(lambda i: p["subs"][i]["inline"])
+            m.delay_of = lambda i: p["subs"][i].get("slow_submit", 0)
             with det.atomic():      # the job thread must not run before the locks/events are named
                 ex = TimeoutExecutor(m, p["default"])
             by_sub = m.by_sub
